@@ -299,7 +299,9 @@ func (vm *VM) Run(program *Program, env interface{}) (out interface{}, err error
 					in[i] = reflect.ValueOf(param)
 				}
 			}
-			out := FetchFn(env, call.Name).Call(in)
+			fn := FetchFn(env, call.Name)
+			nilArgs(fn.Type(), in)
+			out := fn.Call(in)
 			vm.push(out[0].Interface())
 
 		case OpCallFast:
@@ -324,7 +326,9 @@ func (vm *VM) Run(program *Program, env interface{}) (out interface{}, err error
 					in[i] = reflect.ValueOf(param)
 				}
 			}
-			out := FetchFn(vm.pop(), call.Name).Call(in)
+			fn := FetchFn(vm.pop(), call.Name)
+			nilArgs(fn.Type(), in)
+			out := fn.Call(in)
 			vm.push(out[0].Interface())
 
 		case OpMethodNilSafe:
@@ -344,6 +348,7 @@ func (vm *VM) Run(program *Program, env interface{}) (out interface{}, err error
 			if !fn.IsValid() {
 				vm.push(nil)
 			} else {
+				nilArgs(fn.Type(), in)
 				out := fn.Call(in)
 				vm.push(out[0].Interface())
 			}
